@@ -114,6 +114,8 @@ pub fn groups() -> Vec<(&'static str, Vec<(&'static str, Option<Vec<&'static str
         // two separate resources sharing the same filter (they end up in the same watcher)
         ("two resources, both unfiltered: d/ and top/", vec![("d", None), ("top", None)]),
         ("two resources, both [csv]: top/ and d/", vec![("top", Some(vec![".csv"])), ("d", Some(vec![".csv"]))]),
+        // a declared path that does not exist when watching begins, next to one that does (same filter)
+        ("two resources, both [csv]: d/ and a path that does not exist", vec![("d", Some(vec![".csv"])), ("nowhere", Some(vec![".csv"]))]),
     ]
 }
 
@@ -205,6 +207,7 @@ fn wait_for_sentinel(id: &str, seq: usize, root: &Path, group_idx: usize) -> Res
     let which: Vec<String> = match group_idx {
         2 => vec![format!("d/zzsentinel{}.csv", seq), format!("top/zzsentinel{}.txt", seq)],
         3 | 4 => vec![format!("d/zzsentinel{}.csv", seq), format!("top/zzsentinel{}.csv", seq)],
+        5 => vec![format!("d/zzsentinel{}.csv", seq)],
         _ => vec![format!("zzsentinel{}.csv", seq)],
     };
     for s in &which {
